@@ -373,7 +373,7 @@ func (q *Seq) Exec(op SOp) bool {
 		if !q.sendGated(s, idx, r, what, &wamp.Call{Request: req, Options: wamp.Dict{}, Procedure: wamp.URI(op.URI), Arguments: args, ArgumentsKw: op.Kw}) {
 			return true
 		}
-		want, render, eff := m.Meta(idx, req, op.URI, args, op.Kw, refs, q.MetaKill)
+		want, render, eff := m.Meta(idx, req, op.URI, args, op.Kw, refs, q.MetaKill && !m.NoKill)
 		if want == metaErr(req, "wamp.error.no_such_procedure") {
 			// not provided by the realm (kill procedures disabled): an ordinary
 			// call, which a client's pattern registration may match
